@@ -49,7 +49,7 @@ def run(tier, wd):
     rep.cov["lexer_strings"] = len(runs)
     rep.cov["lexer_runs_on_library"] = len(rows)
     # ---- lexical, whole strings: random strings over the spec alphabet, validated by TLC against SpecLexer.tla (binding B)
-    alphabet = list("  \t[]()|.-=<>") + list("AQXOPTIONSazbo18_#~") + ["...", "--", "=<", "-a", "OPTIONS", "--out", "X"]
+    alphabet = list("  \t[]()|.-=<>") + list("AQXOPTIONSazbo18_#~") + [rnd.choice("BCDEFGHIJKLMRUVWYZ"), rnd.choice("cdefghijklmnpqrstuvwxy"), rnd.choice("0234567"), "9", "0"] + ["...", "--", "=<", "-a", "OPTIONS", "--out", "X"]
     import itertools
     strs = set()
     while len(strs) < (1500 if q else 60000):
